@@ -2303,6 +2303,8 @@ pub fn compile<I: BufRead, O: Write>(
             | Op::infix(Rule::andass, Assoc::Right)
             | Op::infix(Rule::orass, Assoc::Right)
             | Op::infix(Rule::xorass, Assoc::Right)
+            | Op::infix(Rule::mulass, Assoc::Right)
+            | Op::infix(Rule::divass, Assoc::Right)
             | Op::infix(Rule::blsass, Assoc::Right)
             | Op::infix(Rule::brsass, Assoc::Right))
         .op(Op::infix(Rule::ternary_cond1, Assoc::Right))
@@ -2337,6 +2339,8 @@ pub fn compile<I: BufRead, O: Write>(
             | Op::infix(Rule::andass, Assoc::Right)
             | Op::infix(Rule::orass, Assoc::Right)
             | Op::infix(Rule::xorass, Assoc::Right)
+            | Op::infix(Rule::mulass, Assoc::Right)
+            | Op::infix(Rule::divass, Assoc::Right)
             | Op::infix(Rule::blsass, Assoc::Right)
             | Op::infix(Rule::brsass, Assoc::Right))
         .op(Op::infix(Rule::ternary_cond1, Assoc::Right))
